@@ -132,7 +132,7 @@ def run(ctx: Ctx) -> None:
     import unit_scaling.functional as U
     import torch
 
-    for L in ([1, 2, 3, 5] if quick else list(range(1, 13))):
+    for L in ([1, 2, 3, 5, 10, 11, 12, 23] if quick else list(range(1, 41)) + [64, 100, 128]):
         for pair in ctx.rng.sample(pairs_all, 2) + [(Fraction(1), Fraction(1)), "default"]:
             if pair == "default":
                 # the library's own default rule object (shared between all stacks)
@@ -177,4 +177,35 @@ def run(ctx: Ctx) -> None:
                 mt = [b2f(x) for pair in m["taus"] for x in pair]
                 if len(mt) != len(attrs) or any(not near(a, b) for a, b in zip(mt, attrs)):
                     ctx.disagree("stack_wiring", case, mt[:8], attrs[:8], ["USProofs.C07.stack_wiring"])
+
+    # end to end through the real residual ops: branch k always emits the unit vector e_{k+1}, the embedding is e_0, so the
+    # k-th component of the final stream *is* the contribution of branch k (taus above 1 occur for large residual_mult)
+    e2e = [(1, Fraction(3), Fraction(1, 3)), (2, Fraction(4), Fraction(1)), (3, Fraction(1), Fraction(1)),
+           (2, Fraction(16), Fraction(1, 16)), (5, Fraction(1, 2), Fraction(2))]
+    e2e += [(ctx.rng.randint(1, 6), *ctx.rng.choice(pairs_all)) for _ in range(4 if quick else 60)]
+    for (L, r, rho) in e2e:
+        case = {"end_to_end": True, "layers": L, "residual_mult": str(r), "residual_attn_ratio": str(rho)}
+        ctx.count(case, bucket="end-to-end")
+        rule = transformer_residual_scaling_rule(float(r), float(rho))
+        n = 2 * L
+        with ctx.guard("C07:end-to-end", case):
+            x = torch.zeros(n + 1, dtype=torch.float64)
+            x[0] = 1.0
+            taus = [rule(k, n) for k in range(n)]
+            for k in range(n):
+                unit = torch.zeros(n + 1, dtype=torch.float64)
+                unit[k + 1] = 1.0
+                x = U.residual_apply(lambda _z, u=unit: u, x, taus[k])
+            got = [float(v) ** 2 for v in x]
+            # the same unrolling the clause oracle applies to the taus (squared weights of the normalised mix)
+            t2 = [t * t for t in taus]
+            suf = [1.0] * (n + 1)
+            for j in range(n - 1, -1, -1):
+                suf[j] = suf[j + 1] / (1 + t2[j])
+            want = [suf[0]] + [t2[i] / (1 + t2[i]) * suf[i + 1] for i in range(n)]
+            oracle(ctx, r, rho, L, taus)
+            if any(abs(a - b) > 1e-9 for a, b in zip(got, want)):
+                ctx.violation("C07:end-to-end", "applying the layers with the real residual ops and the rule's taus does not give "
+                              "the balanced contributions", case,
+                              {"taus": taus[:4], "got": got[:5], "want": want[:5]})
     ctx.exhaustive = False
